@@ -112,7 +112,7 @@ class TModel:
 
 def draw_transform_op(rng, allow_pivot=True):
     """(name, args) for a random transformer operation (factors in [1/4, 4])."""
-    kinds = ["translate", "rotate", "scale", "reflect", "mirror"] + (["set_pivot"] if allow_pivot else [])
+    kinds = ["translate", "rotate", "scale", "reflect", "mirror", "chain"] + (["set_pivot"] if allow_pivot else [])
     k = rng.choice(kinds)
     if k == "translate":
         args = (rng.uniform(-50, 50), rng.uniform(-50, 50)) + ((rng.uniform(-20, 20),) if rng.random() < 0.6 else ())
@@ -134,6 +134,18 @@ def draw_transform_op(rng, allow_pivot=True):
         args = (n,)
     elif k == "mirror":
         args = (rng.choice(["xy", "yz", "zx"]),) if rng.random() < 0.8 else ()
+    elif k == "chain":
+        # an arbitrary invertible affine matrix through the public chain_transform()
+        a, b = math.radians(rng.uniform(-180, 180)), math.radians(rng.uniform(-180, 180))
+        ra = np.array([[math.cos(a), -math.sin(a), 0], [math.sin(a), math.cos(a), 0], [0, 0, 1]])
+        rb = np.array([[1, 0, 0], [0, math.cos(b), -math.sin(b)], [0, math.sin(b), math.cos(b)]])
+        sc = np.diag([rng.uniform(0.5, 2), rng.uniform(0.5, 2), rng.uniform(0.5, 2)])
+        shear = np.eye(3)
+        shear[0, 1] = rng.uniform(-0.5, 0.5)
+        A = np.eye(4)
+        A[:3, :3] = ra @ sc @ shear @ rb
+        A[:3, 3] = [rng.uniform(-20, 20), rng.uniform(-20, 20), rng.uniform(-5, 5)]
+        return "chain_transform", (A,)
     else:
         args = ((rng.uniform(-30, 30), rng.uniform(-30, 30), rng.uniform(-10, 10)),)
     return k, args
@@ -142,5 +154,7 @@ def draw_transform_op(rng, allow_pivot=True):
 def apply_to_model(model, name, args):
     if name == "set_pivot":
         model.set_pivot(args[0])
+    elif name == "chain_transform":
+        model.chain(np.array(args[0], dtype=float))
     else:
         getattr(model, name)(*args)
